@@ -4,7 +4,7 @@
 //! `raw_class_file::verif::{attribute_write, attribute_len, cp_info_write, cp_info_len}`.
 use crate::{proofs, sym, witness};
 use raw_class_file::verif as hook;
-use raw_class_file::{AttributeInfo, CpInfo, LineNumberTableEntry, MethodParametersEntry};
+use raw_class_file::{AttributeInfo, CpInfo, LineNumberTableEntry, MethodParametersEntry, StackMapFrame, VerificationTypeInfo};
 
 fn be16(w: &[u8], at: usize) -> usize { ((w[at] as usize) << 8) | w[at + 1] as usize }
 fn be32(w: &[u8], at: usize) -> usize { ((w[at] as usize) << 24) | ((w[at + 1] as usize) << 16) | ((w[at + 2] as usize) << 8) | w[at + 3] as usize }
@@ -72,6 +72,36 @@ fn method_parameters_body<const N: usize>() {
 	core::mem::forget(w); core::mem::forget(attr);
 }
 
+/// write, check the frame, read back with a one-entry pool naming the attribute: equal value, all bytes consumed
+fn roundtrip(attr: AttributeInfo, name: &'static [u8]) {
+	let w = check_frame(&attr, 1);
+	let mut nm = Vec::with_capacity(name.len());
+	let mut i = 0;
+	while i < name.len() { nm.push(name[i]); i += 1; }
+	let mut pool = Vec::with_capacity(1);
+	pool.push(CpInfo::Utf8 { bytes: nm });
+	let r = hook::attribute_read(&w, &pool);
+	match &r {
+		Ok((back, consumed)) => {
+			assert!(*consumed == w.len(), "reading must consume exactly the bytes written");
+			assert!(*back == attr, "read(write(x)) != x");
+		},
+		Err(_) => panic!("the bytes just written could not be read back"),
+	}
+	core::mem::forget(r); core::mem::forget(pool); core::mem::forget(w); core::mem::forget(attr);
+}
+fn any_vti() -> VerificationTypeInfo {
+	let x = sym::u16();
+	match sym::u8_in(0, 8) {
+		0 => VerificationTypeInfo::Top {}, 1 => VerificationTypeInfo::Integer {}, 2 => VerificationTypeInfo::Float {}, 3 => VerificationTypeInfo::Double {},
+		4 => VerificationTypeInfo::Long {}, 5 => VerificationTypeInfo::Null {}, 6 => VerificationTypeInfo::UnintializedThis {},
+		7 => VerificationTypeInfo::Object { cpool_index: x }, _ => VerificationTypeInfo::Unintialized { offset: x },
+	}
+}
+fn smt(frame: StackMapFrame) -> AttributeInfo { let mut v = Vec::with_capacity(1); v.push(frame); AttributeInfo::StackMapTable { attribute_name_index: 1, entries: v } }
+
+//# {"id":"c20_stack_map_roundtrip","props":["C20"],"tier":"quick","cap":1500,"lib":"verif","bound":"StackMapTable with one frame of each of the seven kinds (symbolic offsets, chop count 1..=3, append with 1..=3 locals, full frame with one local and one stack item, every verification type with symbolic index): attribute_length, announced length, and read(write(x)) == x consuming all bytes; unwind 16","fns":["AttributeInfo::{_write,_len,_read}","StackMapFrame::{_write,_len,_read}","VerificationTypeInfo::{_write,_len,_read}","pool_has_utf8"]}
+//# {"id":"c20_simple_roundtrip","props":["C20"],"tier":"quick","cap":1500,"lib":"verif","bound":"read(write(x)) == x for EnclosingMethod, NestMembers (2 entries), MethodParameters (1 entry), Exceptions (1 entry) with symbolic field values; unwind 24","fns":["AttributeInfo::{_write,_len,_read}","pool_has_utf8"]}
 //# {"id":"c20_attr_fixed","props":["C20"],"tier":"quick","cap":600,"bound":"the nine fixed-size attributes (ConstantValue, EnclosingMethod, Synthetic, Signature, SourceFile, Deprecated, ModuleMainClass, NestHost) with all u16 field values; unwind 8","fns":["raw_class_file::AttributeInfo::{_write,_len}"]}
 //# {"id":"c20_index_table_0","props":["C20"],"tier":"quick","cap":600,"bound":"Exceptions / ModulePackages / NestMembers / PermittedSubclasses with 0 entries; unwind 8","fns":["AttributeInfo::{_write,_len}"]}
 //# {"id":"c20_index_table_1","props":["C20"],"tier":"quick","cap":600,"bound":"Exceptions / ModulePackages / NestMembers / PermittedSubclasses with 1 entry, all u16 values; unwind 8","fns":["AttributeInfo::{_write,_len}"]}
@@ -81,6 +111,43 @@ fn method_parameters_body<const N: usize>() {
 //# {"id":"c20_byte_blobs","props":["C20"],"tier":"quick","cap":900,"bound":"SourceDebugExtension / Other with 0..=2 payload bytes (length concrete per branch), LineNumberTable with 1 entry; unwind 8","fns":["AttributeInfo::{_write,_len}","LineNumberTableEntry::{_write,_len}"]}
 //# {"id":"c20_cp_info","props":["C20"],"tier":"quick","cap":900,"bound":"every fixed-size constant-pool entry kind with all field values, Utf8 with 0..=2 bytes: tag, layout, announced length; unwind 8","fns":["raw_class_file::CpInfo::{_write,_len}"]}
 proofs! {
+	#[cfg_attr(kani, kani::unwind(16))]
+	fn c20_stack_map_roundtrip() {
+		let d8 = sym::u8_in(0, 63);
+		let d16 = sym::u16();
+		match sym::u8_in(0, 6) {
+			0 => roundtrip(smt(StackMapFrame::SameFrame { offset_delta: d8 }), b"StackMapTable"),
+			1 => roundtrip(smt(StackMapFrame::SameLocals1StackItemFrame { offset_delta: d8, stack: any_vti() }), b"StackMapTable"),
+			2 => roundtrip(smt(StackMapFrame::SameLocals1StackItemFrameExtended { offset_delta: d16, stack: any_vti() }), b"StackMapTable"),
+			3 => roundtrip(smt(StackMapFrame::ChopFrame { k: sym::u8_in(1, 3), offset_delta: d16 }), b"StackMapTable"),
+			4 => roundtrip(smt(StackMapFrame::SameFrameExtended { offset_delta: d16 }), b"StackMapTable"),
+			5 => {
+				let n = sym::usize_in(1, 3);
+				let mut locals = Vec::with_capacity(3);
+				locals.push(any_vti());
+				if n >= 2 { locals.push(any_vti()); }
+				if n >= 3 { locals.push(any_vti()); }
+				roundtrip(smt(StackMapFrame::AppendFrame { offset_delta: d16, locals }), b"StackMapTable")
+			},
+			_ => {
+				let mut locals = Vec::with_capacity(1); locals.push(any_vti());
+				let mut stack = Vec::with_capacity(1); stack.push(any_vti());
+				roundtrip(smt(StackMapFrame::FullFrame { offset_delta: d16, locals, stack }), b"StackMapTable")
+			},
+		}
+	}
+
+	#[cfg_attr(kani, kani::unwind(24))]
+	fn c20_simple_roundtrip() {
+		let (x, y) = (sym::u16(), sym::u16());
+		match sym::u8_in(0, 3) {
+			0 => roundtrip(AttributeInfo::EnclosingMethod { attribute_name_index: 1, class_index: x, method_index: y }, b"EnclosingMethod"),
+			1 => { let mut v = Vec::with_capacity(2); v.push(x); v.push(y); roundtrip(AttributeInfo::NestMembers { attribute_name_index: 1, classes: v }, b"NestMembers") },
+			2 => { let mut v = Vec::with_capacity(1); v.push(MethodParametersEntry { name_index: x, access_flags: y }); roundtrip(AttributeInfo::MethodParameters { attribute_name_index: 1, parameters: v }, b"MethodParameters") },
+			_ => { let mut v = Vec::with_capacity(1); v.push(x); roundtrip(AttributeInfo::Exceptions { attribute_name_index: 1, exception_index_table: v }, b"Exceptions") },
+		}
+	}
+
 	#[cfg_attr(kani, kani::unwind(8))]
 	fn c20_attr_fixed() {
 		let name = sym::u16();
